@@ -42,13 +42,17 @@ Definition proper_prefix (p q : path) : Prop := is_prefix p q = true /\ length p
 (** the excluded input classes (each has a [_refuted] witness in Props.v):
     (X1) a removed path that is a proper prefix of a present path;
     (X2) an overwrite of an entry that has metadata by one with empty metadata;
-    (X3) add/remove after the first Store (and on a reloaded manifest). *)
+    (X3) add/remove after the first Store (and on a reloaded manifest).
+    A Store with size callbacks is inside the discipline when it comes after the first plain Store
+    (it returns the cached root) or when its budget is below the size of any node (< 64 bytes):
+    a rejected Store, which must leave every later observation unchanged. *)
 Definition op_disciplined (f : spec) (stored : bool) (o : op) : Prop :=
   match o with
   | OAdd p e m =>
       stored = false /\ (m = [] -> forall e' m', f p = Some (e', m') -> m' = [])
   | ORemove p => stored = false /\ (forall q, proper_prefix p q -> f q = None)
   | OReload => stored = true
+  | OStoreCb b => stored = true \/ (b < 64)%N
   | _ => True
   end.
 Definition is_store (o : op) : bool := match o with OStore => true | _ => false end.
